@@ -24,7 +24,7 @@ sets, independently of glue (see `structure`).
 """
 import numpy as np
 
-from glue.core import Data
+from glue.core import Data, DataCollection
 from glue.core.coordinates import AffineCoordinates, IdentityCoordinates
 from glue.core.coordinate_helpers import pixel2world_single_axis, world2pixel_single_axis
 
@@ -84,7 +84,7 @@ PATTERNS = {
         },
 }
 CELLS = [(nd, name) for nd in (1, 2, 3) for name in PATTERNS[nd]]
-N_PER_CELL = {"quick": 40, "thorough": 2500}
+N_PER_CELL = {"quick": 32, "thorough": 2500}
 MAX_LEN = {"quick": 5, "thorough": 8}
 
 
@@ -259,39 +259,138 @@ def view_index(view):
 
 
 # ---------------------------------------------------------------- the case
+MATRIX_FORMS = ["contiguous", "fortran", "noncontiguous_view", "int_dtype"]
+
+
+def build_coords(rng, nd, pname, k):
+    """Coordinate object of cell (nd, pname); k selects magnitude class, WCS and the in-memory form of the matrix."""
+    pattern = PATTERNS[nd][pname]
+    spec = {"ckind": "identity" if pattern is None else "affine", "magnitude": "unit", "matrix_form": "n/a", "pname": pname}
+    if pattern is None:
+        spec.update(coords=IdentityCoordinates(n_dim=nd), lin=np.eye(nd), inv=np.eye(nd), matrix=None)
+        return spec
+    magnitude = {5: "tiny_axis", 6: "all_tiny", 7: "tiny_offdiag"}.get(k % 8, "unit")
+    pat = np.array(pattern, dtype=bool)
+    # tiny couplings only where the matrix stays well conditioned without them (full diagonal); otherwise the
+    # round trip legitimately loses precision
+    if magnitude == "tiny_offdiag" and not (all(pat[i, i] for i in range(nd)) and pat.sum() > nd):
+        magnitude = "tiny_axis"
+    matrix, inv = make_matrix(rng, nd, pattern, magnitude)
+    form = "contiguous"
+    if k % 8 == 3:
+        coords = linear_wcs(nd, matrix)     # the same affine map expressed as an astropy WCS (glue's WCS branch)
+        spec["ckind"] = "wcs"
+    else:
+        form = MATRIX_FORMS[(k // 8) % 4] if magnitude == "unit" else MATRIX_FORMS[(k // 8) % 3]
+        given = matrix
+        if form == "int_dtype":
+            # integer-valued matrix handed over as an integer array (same non-zero pattern)
+            mi = np.rint(matrix * 8)
+            mi[nd, nd] = 1
+            li = mi[:nd, :nd]
+            if (li != 0).tolist() == (matrix[:nd, :nd] != 0).tolist() and abs(np.linalg.det(li)) > 0.5 \
+                    and np.linalg.cond(li) < 500:
+                matrix = mi.astype(float)
+                inv = np.linalg.inv(li)
+                given = mi.astype(np.int64)
+            else:
+                form = "contiguous"
+        elif form == "fortran":
+            given = np.asfortranarray(matrix)
+        elif form == "noncontiguous_view":
+            big = np.zeros((2 * (nd + 1), 2 * (nd + 1)))
+            big[::2, ::2] = matrix
+            given = big[::2, ::2]
+        coords = AffineCoordinates(given)
+    spec.update(coords=coords, lin=matrix[:nd, :nd], inv=inv, matrix=matrix, magnitude=magnitude, matrix_form=form)
+    return spec
+
+
+REPLACEMENTS = ["other_pattern", "near_equal", "equal_but_distinct", "to_identity", "same_object_again", "via_none"]
+
+
 def run_case(ctx, case):
-    _, nd, pname, k = case
+    _, nd, pname, _k = case
     rng = ctx.rng
+    # class selectors come from the case's own random stream, not from its position in the case list, so that a run
+    # cut short by the time budget still samples every class
+    k = rng.randrange(10 ** 6)
     max_len = MAX_LEN[ctx.tier]
     shape = tuple(rng.randint(1, max_len) for _ in range(nd))
     if k % 5 == 0:      # make sure axes of length 1 (collapsed by unbroadcast) are frequent
         shape = tuple(1 if rng.random() < 0.4 else s for s in shape)
-    pattern = PATTERNS[nd][pname]
-    ckind = "identity" if pattern is None else "affine"
-    magnitude = "unit"
-    if pattern is None:
-        coords = IdentityCoordinates(n_dim=nd)
-        lin = np.eye(nd)
-        inv = np.eye(nd)
-        matrix = None
+    shape_class = "small"
+    if k % 20 == 19:
+        ax = rng.randrange(nd)
+        shape = tuple(rng.randint(100, 180) if j == ax else min(s, 2) for j, s in enumerate(shape))
+        shape_class = "large"
+    elif k % 20 == 9:
+        ax = rng.randrange(nd)
+        shape = tuple(0 if j == ax else s for j, s in enumerate(shape))
+        shape_class = "zero_size"
+    ctx.count("shape_class:" + shape_class)
+    spec = build_coords(rng, nd, pname, k)
+    size = int(np.prod(shape))
+    d = Data(label="d", coords=spec["coords"])
+    arr = np.arange(size, dtype=float).reshape(shape)
+    d.add_component(np.asfortranarray(arr) if k % 2 else arr, "v")
+    in_dc = k % 4 == 2
+    if in_dc:
+        dc = DataCollection([d])    # noqa: F841
+        ctx.count("datasets_in_data_collection")
+    if not observe(ctx, rng, d, spec, shape, "initial"):
+        return
+    if k % 3 != 1:
+        return
+    # ---- the coordinates of the live dataset are replaced
+    how = REPLACEMENTS[(k // 3) % len(REPLACEMENTS)]
+    if how == "other_pattern":
+        spec2 = build_coords(rng, nd, rng.choice(sorted(PATTERNS[nd])), rng.randrange(64))
+    elif how == "near_equal" and spec["matrix"] is not None:
+        # one real term changes by a relative 1e-7: an allclose-style "unchanged" shortcut would keep the old values
+        m2 = spec["matrix"].copy()
+        i, j = [(i, j) for i in range(nd) for j in range(nd + 1) if m2[i, j] != 0][0]
+        m2[i, j] *= (1 + 1e-7)
+        sc = np.abs(m2[:nd, :nd]).sum(axis=1)          # rows may be ~1e-10: invert the row-normalised matrix
+        spec2 = dict(spec, coords=AffineCoordinates(m2), matrix=m2, lin=m2[:nd, :nd],
+                     inv=np.linalg.inv(m2[:nd, :nd] / sc[:, None]) / sc[None, :], ckind="affine", matrix_form="contiguous")
+    elif how == "equal_but_distinct" and spec["matrix"] is not None:
+        spec2 = dict(spec, coords=AffineCoordinates(spec["matrix"].copy()), ckind="affine", matrix_form="contiguous")
+    elif how == "to_identity" or spec["matrix"] is None and how in ("near_equal", "equal_but_distinct"):
+        spec2 = build_coords(rng, nd, "identity", 0)
+        how = "to_identity"
+    elif how == "same_object_again":
+        spec2 = spec
     else:
-        magnitude = {5: "tiny_axis", 6: "all_tiny", 7: "tiny_offdiag"}.get(k % 8, "unit")
-        pat = np.array(pattern, dtype=bool)
-        # tiny couplings only where the matrix stays well conditioned without them (full diagonal); otherwise the
-        # round trip legitimately loses precision
-        if magnitude == "tiny_offdiag" and not (all(pat[i, i] for i in range(nd)) and pat.sum() > nd):
-            magnitude = "tiny_axis"
-        matrix, inv = make_matrix(rng, nd, pattern, magnitude)
-        lin = matrix[:nd, :nd]
-        if k % 8 == 3:
-            coords = linear_wcs(nd, matrix)     # the same affine map expressed as an astropy WCS (glue's WCS branch)
-            ckind = "wcs"
-        else:
-            coords = AffineCoordinates(matrix)
+        spec2 = build_coords(rng, nd, rng.choice(sorted(PATTERNS[nd])), rng.randrange(64))
+    try:
+        if how == "via_none":
+            d.coords = None
+            leftovers = {"world_ids": len(d.world_component_ids), "coordinate_links": len(d.coordinate_links),
+                         "world_labels_listed": sum(1 for c in d.components if c.label.startswith("World"))}
+            ctx.evaluation()
+            ctx.count("coords_removed_state_compared")
+            if any(leftovers.values()):
+                ctx.violation({"kind": "world_attributes_or_links_left_after_coords_removed",
+                               "what": sorted(k_ for k_, v in leftovers.items() if v)}, {"shape": list(shape), "left": leftovers})
+        d.coords = spec2["coords"]
+    except Exception as e:   # noqa
+        ctx.violation({"kind": "coords_replacement_failed", "how": "exception:" + exc_name(e), "replacement": how},
+                      {"shape": list(shape), "error": repr(e)[:300]})
+        return
+    ctx.count("coords_replaced:" + how)
+    observe(ctx, rng, d, spec2, shape, "after_coords_replaced:" + how)
+
+
+def observe(ctx, rng, d, spec, shape, phase):
+    """All observations of one dataset in its current state; False when nothing more can be checked."""
+    nd = len(shape)
+    pname = spec["pname"]
+    coords, lin, inv, matrix = spec["coords"], spec["lin"], spec["inv"], spec["matrix"]
+    magnitude, ckind = spec["magnitude"], spec["ckind"]
+    initial = phase == "initial"
     st = structure(nd, lin, inv)
     size = int(np.prod(shape))
-    d = Data(label="d", coords=coords)
-    d.add_component(np.arange(size, dtype=float).reshape(shape), "v")
     grids, world = dense_reference(coords, shape)
     # magnitude of each world axis (numpy order) over the pixel range used anywhere below, and of each pixel axis when
     # recovered from such world values: absolute tolerances are REL times these
@@ -302,12 +401,14 @@ def run_case(ctx, case):
     pscale_c = np.abs(inv) @ (wscale_c + np.abs(offm)) + 1.0
     wscale = wscale_c[::-1]
     pscale = pscale_c[::-1]
-    ctx.count("magnitude:" + magnitude)
-    ctx.count("datasets")
-    ctx.count("cell:%dd:%s" % (nd, pname))
-    base = {"ndim": nd, "coords": ckind}
-    ctx.count("coords:" + ckind)
-    wit = {"shape": list(shape), "pattern": pname, "magnitude": magnitude,
+    if initial:
+        ctx.count("magnitude:" + magnitude)
+        ctx.count("datasets")
+        ctx.count("cell:%dd:%s" % (nd, pname))
+        ctx.count("coords:" + ckind)
+        ctx.count("matrix_form:" + spec["matrix_form"])
+    base = {"ndim": nd, "coords": ckind, "phase": phase.split(":")[0]}
+    wit = {"shape": list(shape), "pattern": pname, "magnitude": magnitude, "phase": phase, "matrix_form": spec["matrix_form"],
            "matrix": None if matrix is None else matrix.tolist()}
 
     def report(kind, sig_extra, how, detail):
@@ -322,7 +423,7 @@ def run_case(ctx, case):
     if len(d.world_component_ids) != nd or len(d.coordinate_links) != 2 * nd:
         report("missing_world_attributes_or_links", {}, "count",
                {"world": len(d.world_component_ids), "links": len(d.coordinate_links)})
-        return
+        return False
 
     # ---- P: the pixel attributes are the grid (inputs of the links)
     for ax, pc in enumerate(d.pixel_component_ids):
@@ -335,12 +436,34 @@ def run_case(ctx, case):
     # ---- W: world attributes under every view recipe
     world_view_ok = {}
     views = []
+    zero = 0 in shape
     for vk in VIEW_KINDS:
-        reps = 2 if vk in ("int_slice_mix", "slice_tuple_full", "slice_tuple_short", "index_arrays") else 1
+        if zero and vk in ("int_slice_mix", "all_int", "index_arrays", "bool_mask"):
+            continue
+        reps = 2 if vk in ("int_slice_mix", "slice_tuple_full", "slice_tuple_short", "index_arrays") and initial else 1
         for _ in range(reps):
             views.append((vk, make_view(rng, shape, vk)))
-    for _ in range(3):
-        views.append(("neg_int", neg_view(rng, shape)))
+    if zero:
+        views.append(("bool_mask", np.zeros(shape, dtype=bool)))
+    else:
+        for _ in range(3 if initial else 1):
+            views.append(("neg_int", neg_view(rng, shape)))
+        views.append(("neg_step", tuple(slice(rng.choice([None, s - 1]), rng.choice([None, 0]), -rng.choice([1, 2]))
+                                        for s in shape[:rng.randint(1, nd)])))
+        kk = rng.randint(1, 5)
+        views.append(("neg_index_arrays", tuple(np.array([rng.randrange(-s, s) for _ in range(kk)]) for s in shape)))
+        if nd > 1:
+            # index arrays mixed with integers / slices (numpy broadcasts the integer, keeps the sliced axis)
+            mix = [np.array([rng.randrange(s) for _ in range(kk)]) if rng.random() < 0.5 else
+                   (rng.randrange(s) if rng.random() < 0.6 else slice(None)) for s in shape]
+            if not any(isinstance(x, np.ndarray) for x in mix):
+                mix[0] = np.array([rng.randrange(shape[0]) for _ in range(kk)])
+            if all(isinstance(x, np.ndarray) for x in mix):
+                mix[-1] = rng.randrange(shape[-1])
+            if isinstance(mix[0], np.ndarray) or not any(isinstance(x, slice) for x in mix):
+                views.append(("index_array_int_mix", tuple(mix)))
+    if phase != "initial":
+        ctx.count("world_reads_" + phase.split(":")[0], len(views) * nd)
     for ax, wc in enumerate(d.world_component_ids):
         comp = d.get_component(wc)
         for vi, (vk, view) in enumerate(views):
@@ -370,10 +493,11 @@ def run_case(ctx, case):
         ctx.count("datasets_with_world_axis_outside_own_group")
 
     # ---- L: the automatically created links
-    link_views = [(i, v) for i, v in enumerate(views) if v[0] in ("none", "bool_mask", "neg_int")]
-    others = [(i, v) for i, v in enumerate(views) if v[0] not in ("none", "bool_mask", "neg_int")]
+    always = ("none", "bool_mask", "neg_int", "neg_step", "neg_index_arrays")
+    link_views = [(i, v) for i, v in enumerate(views) if v[0] in always]
+    others = [(i, v) for i, v in enumerate(views) if v[0] not in always]
     rng.shuffle(others)
-    link_views += others[:6]
+    link_views += others[:6 if initial else 3]
     seen = set()
     for link in d.coordinate_links:
         ax = link.index
@@ -432,6 +556,8 @@ def run_case(ctx, case):
     if not all(st["inv_ok_link"].values()):
         ctx.count("datasets_with_inverse_dependency_outside_shortcut")
 
+    if not initial:
+        return True
     # ---- RT on the coordinate object: grid and off-grid positions
     pts = [g.ravel() for g in grids] + []
     off = [np.array([rng.uniform(-2, s + 1) for _ in range(7)]) for s in shape]
@@ -458,8 +584,10 @@ def run_case(ctx, case):
             keep = [rng.random() < 0.5 for _ in hshape]
             small = tuple(s if kp else 1 for s, kp in zip(hshape, keep))
             a = np.array([rng.choice([0.0, 1.0, 2.0, 3.5, -1.25, 7.0]) for _ in range(int(np.prod(small)))]).reshape(small)
+            if rng.random() < 0.3:
+                a = a.astype(rng.choice(["float32", "int64", ">f8"]))    # 3.5 / -1.25 truncate for int64: still inputs
             arrs.append(np.broadcast_to(a, hshape))
-        dense = [np.array(a) for a in arrs]
+        dense = [np.array(a, dtype=float) for a in arrs]
         for direction in ("p2w", "w2p"):
             for cax in range(nd):       # coordinate-order axis
                 try:
@@ -491,6 +619,7 @@ def run_case(ctx, case):
     if rng.random() < 0.01:
         ctx.sample({"shape": list(shape), "pattern": pname, "matrix": wit["matrix"],
                     "world0_full": world[0], "views": [describe_view(v) for _, v in views[:6]]})
+    return True
 
 
 def floors(counters, tier):
@@ -509,7 +638,14 @@ def floors(counters, tier):
     for mg in MAGNITUDES:
         if counters.get("magnitude:" + mg, 0) < 15:
             out.append("fewer than 15 datasets with magnitude class %s" % mg)
-    for vk in list(VIEW_KINDS) + ["neg_int"]:
+    for key, lo in (("coords_replaced:other_pattern", 8), ("coords_replaced:near_equal", 8), ("coords_replaced:via_none", 8),
+                    ("coords_replaced:equal_but_distinct", 8), ("coords_replaced:to_identity", 8),
+                    ("coords_replaced:same_object_again", 8), ("world_reads_after_coords_replaced", 2000),
+                    ("shape_class:large", 8), ("shape_class:zero_size", 8), ("datasets_in_data_collection", 50),
+                    ("matrix_form:fortran", 15), ("matrix_form:noncontiguous_view", 15), ("matrix_form:int_dtype", 8)):
+        if counters.get(key, 0) < lo:
+            out.append("fewer than %d %s" % (lo, key))
+    for vk in list(VIEW_KINDS) + ["neg_int", "neg_step", "neg_index_arrays", "index_array_int_mix"]:
         if counters.get("world_attr_view:" + vk, 0) < 200:
             out.append("fewer than 200 world-attribute reads with view kind %s" % vk)
     return out
